@@ -113,6 +113,13 @@ def judge(job, o):
             return f"errors.json differs from the collected errors ({m['identity']})", None
         man = rec["manifest.json"]
         collected = m["lines"] if o["method"] in ("collect_paths", "collect_by_line") else []
+        if o["method"] in ("collect_paths", "collect_by_line") and m.get("calls") is not None and isinstance(collected, list) and not m["cwnm"]:
+            # (under return-mode: no-matches the lines advance() passes over are kept too: the run-loop model of C07/C13 decides those)
+            # the lines a collecting run keeps are the scanned lines its matcher accepted (rejected, under return-mode: no-matches): as many as that
+            rows = job["files"]["f"]      # (the blank final record reaches the matcher only to run the last() components: it is not a scanned line)
+            want = sum(1 for c in m["calls"] if bool(c[1]) != bool(m["cwnm"]) and 0 <= c[0] < len(rows) and rows[c[0]])
+            if len(collected) != want:
+                return f"member {m['identity']} kept {len(collected)} lines (in memory and in data.csv) but its matcher {'rejected' if m['cwnm'] else 'accepted'} {want} scanned lines", None
         unm = m["unmatched"] or []
         pos = m["printouts"] if isinstance(m["printouts"], list) else []
         lits.append(f"(mkC09M {listlit(collected, lambda r: listlit(r, ulit))} {oulit(rec['data.csv'])} {listlit(unm, lambda r: listlit(r, ulit))} {oulit(rec['unmatched.csv'])} "
@@ -127,6 +134,8 @@ def run(ctx):
     rng = ctx.rng
     quick = ctx.tier == "quick"
     jobs = [gen_group(rng, i) for i in range(60 if quick else 1500)]
+    for j in jobs:
+        j["record"] = True      # the members' matcher answers are recorded: a collecting run keeps exactly the accepted lines
     res = pmap(ctx, groups.run_history, jobs, chunksize=2)
     fails, lits, src = [], [], []
     for j, r in zip(jobs, res):
